@@ -170,6 +170,10 @@ pub fn deviations() -> Vec<Dev> {
         p.surface = "a\\u002cb\\u{1F600}".into();
         p.headword = "a\\u002cb\\u{1F600}".into();
     }));
+    // the scalar values next to the structural boundaries of UTF-8 / UTF-16 (last BMP, first astral,
+    // around the surrogate gap, the last scalar), literally and escaped
+    d.push(dev("reading", "reading made of boundary scalar values".into(), |c| c.probe().reading = "\u{7f}\u{80}\u{7ff}\u{800}\u{d7ff}\u{e000}\u{ffff}\u{10000}\u{10001}\u{10ffff}".into()));
+    d.push(dev("norm", "normalised form made of escaped boundary scalar values".into(), |c| c.probe().norm = "\\u{ffff}\\u{10000}\\uFFFE\\u{10FFFF}".into()));
     d.push(dev("norm", "normalised form differs".into(), |c| c.probe().norm = "別".into()));
     d.push(dev("norm", "normalised form with escape".into(), |c| c.probe().norm = "x\\u3042y".into()));
     d.push(dev("norm", "normalised form of 127 units".into(), |c| c.probe().norm = utf16_string(127, true)));
